@@ -82,17 +82,45 @@ def check_learner(case):
     facts["effective"] = str(eff) if not callable(eff) else "callable"
     require(w.method == eff or (callable(eff) and w.method is eff), "learner:default-method", "method %r chosen for %s" % (w.method, type(model).__name__), facts)
     nfit = 0
-    for (i, use_w) in case["history"]:
+    nset = 0
+    cur_spec = case["model"]
+    last = None
+    for op in case["history"]:
+        if op[0] == "set_method":
+            # a valid method for this kind of model, set through the parameter API (Pipeline / GridSearchCV do this)
+            new_m = R.build_value(op[1])
+            r = w.set_params(method=new_m)
+            require(r is w, "learner:set_params-not-self", "", facts)
+            eff = new_m
+            facts["effective"] = str(eff) if not callable(eff) else "callable"
+            nset += 1
+            if last is not None:
+                Z = last
+                out = w.transform(Z)
+                exp = _direct(w.model, eff, Z)
+                require(np.asarray(out).shape == exp.shape and np.array_equal(out, exp, equal_nan=True), "learner:transform-differs:after-set_params",
+                        "after set_params(method=%s) transform(Z) is not model.%s(Z)" % (facts["effective"], facts["effective"]), facts)
+            continue
+        if op[0] == "set_model":
+            cur_spec = op[1]
+            r = w.set_params(model=R.build(cur_spec))
+            require(r is w, "learner:set_params-not-self", "", facts)
+            model = w.model
+            last = None
+            nset += 1
+            continue
+        _, i, use_w = op
         X, y, sw = datasets[i]
-        kw = dict(sample_weight=sw) if (use_w and sw is not None and not hasattr(model, "transform")) else {}
+        kw = dict(sample_weight=sw) if (use_w and sw is not None and not hasattr(w.model, "transform")) else {}
         X0, y0 = X.copy(), y.copy()
         r = w.fit(X, y, **kw)
         nfit += 1
         require(r is w, "learner:fit-not-self", "", facts)
         require(np.array_equal(X, X0) and np.array_equal(y, y0), "learner:fit-writes-input", "", facts)
-        ref = clone(R.build(case["model"]))
+        ref = clone(R.build(cur_spec))
         ref.fit(X, y, **kw)
-        Z = np.vstack([X[:4], np.array(case["Q"], dtype=np.float64).reshape(-1, X.shape[1])[:, :X.shape[1]] if False else X[::3]])
+        Z = np.vstack([X[:4], X[::3]])
+        last = Z
         d = _same_state(_state(w.model, Z), _state(ref, Z))
         require(d is None, "learner:not-trained-like-direct-fit", "the wrapped model differs from clone(model).fit(X, y): %s" % d, facts)
         if isinstance(w.model, (H.RecordingRegressor, H.RecordingClassifier)):
@@ -103,9 +131,9 @@ def check_learner(case):
         exp = _direct(w.model, eff, Z)
         require(np.asarray(out).ndim == 2, "learner:not-2d", "%r" % (np.asarray(out).shape,), facts)
         require(np.asarray(out).shape == exp.shape and np.array_equal(out, exp, equal_nan=True) and np.asarray(out).dtype == exp.dtype,
-                "learner:transform-differs", "transform(Z) is not model.%s(Z)" % facts["effective"], facts)
-    return Outcome([facts["model"], "method=" + facts["effective"], "given=" + ("None" if method is None else "explicit"), "fits=%d" % nfit],
-                   method is not None or len(set(h[0] for h in case["history"])) > 1)
+                "learner:transform-differs" + (":after-set_params" if nset else ""), "transform(Z) is not model.%s(Z)" % facts["effective"], facts)
+    return Outcome([facts["model"], "method=" + facts["effective"], "given=" + ("None" if method is None else "explicit"), "fits=%d" % nfit,
+                    "set_params=%d" % min(nset, 2)], method is not None or nset > 0 or len(set(h[1] for h in case["history"] if h[0] == "fit")) > 1)
 
 
 def _models_for(kind, draw):
@@ -132,7 +160,24 @@ def _learner_cases(draw, tier="quick"):
     else:
         method = draw(st.sampled_from([None, "transform"]))
         datasets = [R.d_reg(draw), R.d_reg(draw)]
-    hist = [[draw(st.integers(0, 1)), draw(st.booleans())] for _ in range(draw(st.integers(1, 3)))]
+    if kind == "reg":
+        alt_methods = ["predict", {"fn": "col_sum"}]
+    elif kind == "clf":
+        alt_methods = ["predict", "predict_proba"]
+    else:
+        alt_methods = ["transform"]
+    hist = [["fit", draw(st.integers(0, 1)), draw(st.booleans())]]
+    for _ in range(draw(st.integers(0, 3))):
+        k = draw(st.sampled_from(["fit", "fit", "set_method", "set_model"]))
+        if k == "fit":
+            hist.append(["fit", draw(st.integers(0, 1)), draw(st.booleans())])
+        elif k == "set_method":
+            hist.append(["set_method", draw(st.sampled_from(alt_methods))])
+        else:
+            hist.append(["set_model", _models_for(kind, draw) if kind != "clf" else R.s_classifier(draw)])
+            hist.append(["fit", draw(st.integers(0, 1)), draw(st.booleans())])
+    if kind == "clf" and method == "decision_function" and any(h[0] == "set_model" for h in hist):
+        method = "predict_proba"       # a replacement model may have no decision_function (model and method are interdependent)
     return dict(model=model, method=method, datasets=datasets, history=hist, Q=[])
 
 
